@@ -160,10 +160,73 @@ def kernel_level():
     return None, None
 
 
+def containers_and_repeats():
+    """(a) the designated index subset may be any container of indices (list, tuple, range, ndarray, set, frozenset, dict keys): the map
+    is the same as for the list; (b) kernels driven with index lists that repeat an entry (lengths adding up to n_dim or more): every
+    walker the kernel returns still has its non-designated coordinates inside [0,1]"""
+    import warnings
+    from tempest import mcmc
+    from tempest.modes import ModeStatistics
+    warnings.simplefilter("ignore")
+    rng = np.random.RandomState(2)
+    pts = np.r_[rng.uniform(-3, 4, (40, 3)), [[1.25, -0.5, 0.5], [-1e-17, 2.0, 1.0], [0.0, 1.0, 3.75]]]
+    for idx in ([0], [2], [0, 2], [1]):
+        forms = [("tuple", tuple(idx)), ("ndarray", np.array(idx)), ("set", set(idx)), ("frozenset", frozenset(idx)), ("dict keys", dict.fromkeys(idx).keys()),
+                 ("range", range(idx[0], idx[0] + 1)) if len(idx) == 1 else ("list", list(idx))]
+        for which in ("periodic", "reflective"):
+            for u in (pts, pts[0]):
+                ref = mcmc.apply_boundary_conditions(u.copy(), idx if which == "periodic" else None, idx if which == "reflective" else None)
+                for fname, f in forms:
+                    try:
+                        out = mcmc.apply_boundary_conditions(u.copy(), f if which == "periodic" else None, f if which == "reflective" else None)
+                    except Exception:
+                        continue                 # a container the function does not accept is rejected loudly: nothing is mapped wrongly
+                    if out.shape != ref.shape or not np.array_equal(out, ref):
+                        bad = np.argwhere(np.atleast_2d(out) != np.atleast_2d(ref))[0]
+                        return (f"apply_boundary_conditions with {which} = {fname} {sorted(idx)}: coordinate {int(bad[-1])} of {np.atleast_2d(u)[bad[0]].tolist()} is mapped to "
+                                f"{float(np.atleast_2d(out)[tuple(bad)])!r}, the same subset given as a list gives {float(np.atleast_2d(ref)[tuple(bad)])!r}"), {"container": fname, "indices": idx, "kind": which}
+    for kernel, cls in (("rwm", mcmc.RWMRunner), ("tpcn", mcmc.TPCNRunner)):
+        for d, P, R in ((2, [0, 0], None), (2, None, [1, 1]), (3, [0, 0], [1]), (2, [0], [0]) if False else (3, [2, 2, 2], None)):
+            ms = ModeStatistics(np.full((1, d), 0.5), 0.5 * np.eye(d)[None], np.array([5.0]))
+            n = 16
+            u0 = np.random.RandomState(4).uniform(0.05, 0.95, (n, d))
+            try:
+                r = cls(u=u0.copy(), x=u0.copy(), logl=np.zeros(n), blobs=None, assignments=np.zeros(n, dtype=int), beta=1.0, mode_stats=ms,
+                        log_likelihood=lambda x: (np.zeros(len(np.atleast_2d(x))), None), prior_transform=lambda v: v, progress_bar=None, n_steps=2, n_max=6,
+                        periodic=P, reflective=R, verbose=False)
+            except (TypeError, ValueError):
+                continue
+            st = np.random.get_state()
+            np.random.seed(5)
+            try:
+                r.run()
+            except Exception as e:
+                return f"{kernel} kernel with periodic={P}, reflective={R}: run raised {type(e).__name__}: {e}", {"kernel": kernel, "periodic": P, "reflective": R}
+            finally:
+                np.random.set_state(st)
+            got = np.asarray(r.u)
+            strict = [j for j in range(d) if j not in set(P or []) | set(R or [])]
+            bad = [(k, j) for k in range(n) for j in strict if not (0.0 <= got[k, j] <= 1.0)]
+            if bad or np.any(got < 0) or np.any(got > 1):
+                k, j = bad[0] if bad else tuple(np.argwhere((got < 0) | (got > 1))[0])
+                return (f"{kernel} kernel with periodic={P}, reflective={R} (n_dim={d}): walker {k} was returned with coordinate {j} = {float(got[k, j])!r}, outside [0,1] "
+                        f"({'a coordinate with no boundary condition' if (k, j) in bad else 'a designated coordinate'})"), {"kernel": kernel, "periodic": P, "reflective": R, "n_dim": d}
+    return None, None
+
+
 def main():
     p = json.load(open(sys.argv[1]))
     inp = p.get("input") or {}
     tried = 0
+    if inp.get("v") is None:
+        try:
+            e, what = containers_and_repeats()
+        except Exception as ex:
+            e, what = f"containers_and_repeats: {type(ex).__name__}: {ex}", {"case": "containers_and_repeats"}
+        tried += 1
+        if e:
+            print(json.dumps({"reproduced": True, "detail": e, "tried": tried, "input": what}))
+            return
     if inp.get("v") is None:
         try:
             e, what = kernel_level()
